@@ -12,9 +12,9 @@ and everything a client can observe is compared.
 from harness import persist
 
 PROPERTY = "C12"
-FUNCTIONS = ["asimap.mbox.Mailbox.shutdown", "asimap.mbox.Mailbox.commit_to_db", "asimap.mbox.Mailbox._restore_from_db", "asimap.mbox.Mailbox.new", "asimap.mbox.Mailbox.check_new_msgs_and_flags", "asimap.utils.compact_sequence/expand_sequence", "asimap.user_server.IMAPUserServer.get_mailbox/_restore_from_db", "asimap.db.Database.apply_migrations"]
+FUNCTIONS = ["asimap.user_server.IMAPUserServer.find_all_folders (startup_step)", "asimap.mbox.Mailbox.shutdown", "asimap.mbox.Mailbox.commit_to_db", "asimap.mbox.Mailbox._restore_from_db", "asimap.mbox.Mailbox.new", "asimap.mbox.Mailbox.check_new_msgs_and_flags", "asimap.utils.compact_sequence/expand_sequence", "asimap.user_server.IMAPUserServer.get_mailbox/_restore_from_db", "asimap.db.Database.apply_migrations"]
 MUST_REACH = ["mbox.Mailbox.shutdown", "mbox.Mailbox.commit_to_db", "mbox.Mailbox._restore_from_db", "utils.compact_sequence", "utils.expand_sequence", "user_server.IMAPUserServer.get_mailbox"]
-BOUNDS = {"quick": {"messages": "n in {0, 2}", "gaps": "one sparse shape of key/UID gaps; flag bits, slack, subscription, mtime relation symbolic"}, "thorough": {"messages": "n <= 3", "gaps": "three shapes"}}
+BOUNDS = {"quick": {"messages": "n in {0, 2}", "gaps": "one sparse shape of key/UID gaps; flag bits, slack, subscription, mtime relation symbolic", "startup_step": "start-up folder discovery (find_all_folders, SPECIAL-USE auto-creation) after CREATE kid / SUBSCRIBE / DELETE of one of 4 names, one or two restarts"}, "thorough": {"messages": "n <= 3", "gaps": "three shapes"}}
 SYMBOLIC = ["next_uid slack", "Seen/flagged bits", "subscribed", "\\Marked", "folder mtime newer than stored"]
 REALISED = ["key/UID gaps (formatted into the persisted range strings)"]
 STUBS = ["FakeMH", "real asimap.db.Database + real SQL on in-memory sqlite (tokenised parameters)", "SimLoop"]
